@@ -149,6 +149,15 @@ func runRun(rc runCase, cp *capture) (err error) {
 	if wedged.Load() {
 		return nil
 	}
+	defer func() {
+		if err != nil {
+			for _, m := range globalMutexes() {
+				if lockWithin(m.name, m.mu, time.Second) != nil {
+					wedged.Store(true)
+				}
+			}
+		}
+	}()
 	e := getEnv()
 	e.reset(rc.Syncing)
 	var off int64
